@@ -467,6 +467,7 @@ func ruleOPT3(c *Ctx) {
 
 	// --- GetOption: type switch cases
 	ginfo := get.Info()
+	opt3BoolsStored(c, get)
 	getTyped := map[string]flagFieldPair{}
 	for _, ts := range findAll[*ast.TypeSwitchStmt](get.Body()) {
 		for _, st := range ts.Body.List {
@@ -688,4 +689,92 @@ func IdentOrSelObj(info *types.Info, e ast.Expr) types.Object {
 		return info.Uses[x.Sel]
 	}
 	return nil
+}
+
+// opt3BoolsStored: in the boolean case of GetOption, whenever the option may be
+// present (Flags.Has(opt) not known false on the path) the value returned is
+// the stored one (derived from Flags.Get(opt)) — a fallback such as "the
+// string tag implies StringifyNumbers" may only answer for an absent option.
+func opt3BoolsStored(c *Ctx, get *FuncInfo) {
+	p := c.P
+	info := get.Info()
+	// the case clause for jsonflags.Bools and its bound variable
+	var clause *ast.CaseClause
+	for _, ts := range findAll[*ast.TypeSwitchStmt](get.Body()) {
+		for _, st := range ts.Body.List {
+			cc := st.(*ast.CaseClause)
+			if len(cc.List) == 1 {
+				if t := info.TypeOf(cc.List[0]); t != nil && isNamed(t, pkgAlias["jsonflags"], "Bools") {
+					clause = cc
+				}
+			}
+		}
+	}
+	if clause == nil {
+		c.Undecide("jsonopts.GetOption/Bools", "no case for jsonflags.Bools")
+		return
+	}
+	optVar := info.Implicits[clause]
+	isOpt := func(e ast.Expr) bool { return optVar != nil && IdentObj(info, e) == optVar }
+	flagCallOnOpt := func(e ast.Expr, method string) bool {
+		call, ok := ast.Unparen(e).(*ast.CallExpr)
+		if !ok || len(call.Args) != 1 || !isOpt(call.Args[0]) {
+			return false
+		}
+		sel, ok := ast.Unparen(call.Fun).(*ast.SelectorExpr)
+		if !ok || sel.Sel.Name != method {
+			return false
+		}
+		cf := Callee(info, call)
+		return cf != nil && cf.Pkg() != nil && cf.Pkg().Path() == pkgAlias["jsonflags"]
+	}
+	derivesFrom := func(e ast.Expr, method string) bool {
+		found := false
+		ast.Inspect(e, func(n ast.Node) bool {
+			if x, ok := n.(ast.Expr); ok && !found {
+				if flagCallOnOpt(x, method) {
+					found = true
+				}
+				if v := IdentObj(info, x); v != nil {
+					for _, d := range defsOf(info, &ast.BlockStmt{List: clause.Body}, v) {
+						if flagCallOnOpt(d, method) {
+							found = true
+						}
+					}
+				}
+			}
+			return !found
+		})
+		return found
+	}
+	type st struct{ has tri }
+	bad := ""
+	nret := 0
+	fl := &Flow[st]{Fn: get}
+	fl.Node = func(n ast.Node, s st) []st {
+		if r, ok := n.(*ast.ReturnStmt); ok {
+			if r.Pos() >= clause.Pos() && r.End() <= clause.End() && len(r.Results) == 2 {
+				nret++
+				if s.has != triNo && !derivesFrom(r.Results[0], "Get") && bad == "" {
+					bad = "returns `" + exprString(r.Results[0]) + "` at " + p.Position(r.Pos()) + " on a path where the option may have been set explicitly (Flags.Has(opt) not known to be false): the stored value must win"
+				}
+			}
+			return nil
+		}
+		return []st{s}
+	}
+	fl.Leaf = func(e ast.Expr, s st) (t, f []st) {
+		if e.Pos() >= clause.Pos() && e.End() <= clause.End() && derivesFrom(e, "Has") {
+			if _, isId := ast.Unparen(e).(*ast.Ident); isId || flagCallOnOpt(e, "Has") {
+				return []st{{triYes}}, []st{{triNo}}
+			}
+		}
+		return []st{s}, []st{s}
+	}
+	fl.Run(st{})
+	if nret == 0 {
+		c.Undecide("jsonopts.GetOption/Bools", "no return in the boolean case")
+		return
+	}
+	c.Oblige("get:bools-stored-value-wins", clause.Pos(), bad == "", bad)
 }
